@@ -58,12 +58,12 @@ func c20KindOf(f *flow.Func, e ast.Expr, depth int) *types.Var {
 		if !ok || fnObj.Pkg() == nil || fnObj.Pkg().Path() != Mod+c20sv {
 			return nil
 		}
-		return c20RootOrigin(f, sel.X)
+		return c20DerivRoot(f, sel.X)
 	}
 	if sel, ok := e.(*ast.SelectorExpr); ok && sel.Sel.Name == "Kind" {
 		// MetaSpec.Kind field
 		if fld := c20FieldOf(f, sel); fld != nil && fld.Pkg() != nil && fld.Pkg().Path() == Mod+c20sv {
-			return c20RootOrigin(f, sel.X)
+			return c20DerivRoot(f, sel.X)
 		}
 		return nil
 	}
@@ -98,6 +98,30 @@ func c20Diff(c *core.Ctx) {
 	if entF == nil || evF["deleted"] == nil || evF["created"] == nil || evF["updated"] == nil || wEntF == nil || chanF == nil {
 		return
 	}
+	// the function that computes the diff: applyConfig itself or a same-package function it calls,
+	// recognised by ranging over ObjectRegistry.entities and over one of its own map parameters
+	entry := f
+	for _, g := range reach(entry, 2) {
+		hasEnt, hasParam := false, false
+		gfd, _ := g.Node.(*ast.FuncDecl)
+		c20SkipLits(g.Body, func(n ast.Node) bool {
+			if rs, ok := n.(*ast.RangeStmt); ok {
+				if c20FieldOf(g, rs.X) == entF {
+					hasEnt = true
+				}
+				if v := c20Var(g, rs.X); v != nil && c20ParamIndex(g, gfd, v) >= 0 {
+					if _, isMap := v.Type().Underlying().(*types.Map); isMap {
+						hasParam = true
+					}
+				}
+			}
+			return true
+		})
+		if hasEnt && hasParam {
+			f = g
+			break
+		}
+	}
 	// the new configuration: the map parameter
 	var cfgVar *types.Var
 	if f.Type.Params != nil {
@@ -123,7 +147,7 @@ func c20Diff(c *core.Ctx) {
 	buckets := map[string]*types.Var{}
 	notifyLoops := map[string]*ast.RangeStmt{}
 	notifyHost := f
-	for _, g := range reach(f, 2) {
+	for _, g := range reach(entry, 3) {
 		g := g
 		gfd, _ := g.Node.(*ast.FuncDecl)
 		ast.Inspect(g.Body, func(n ast.Node) bool {
@@ -132,6 +156,13 @@ func c20Diff(c *core.Ctx) {
 				return true
 			}
 			bv := c20Var(g, rs.X)
+			isField := false
+			if bv == nil {
+				// a field of a struct that carries the three maps from the diff to the notification
+				if fv := c20FieldOf(g, rs.X); fv != nil && fv != entF && fv != wEntF {
+					bv, isField = fv, true
+				}
+			}
 			if bv == nil {
 				return true
 			}
@@ -152,7 +183,9 @@ func c20Diff(c *core.Ctx) {
 			if role == "" {
 				return true
 			}
-			if g.Body != f.Body {
+			if isField {
+				notifyHost = g
+			} else if g.Body != f.Body {
 				// the ranged map must be a parameter; the bucket is what applyConfig passes for it
 				idx := c20ParamIndex(g, gfd, bv)
 				gObj, _ := g.Info.Defs[gfd.Name].(*types.Func)
@@ -291,25 +324,127 @@ func c20Diff(c *core.Ctx) {
 	// Equals(prev.Spec(), new.Spec()) in either direction
 	var eqKeys []string
 	var kindAtoms []c20Atom
+	// collect reads the comparisons in body; mp maps a root variable to the role variable it stands for
+	collect := func(body ast.Node, mp func(*types.Var) *types.Var) {
+		c20SkipLits(body, func(n ast.Node) bool {
+			switch x := n.(type) {
+			case *ast.CallExpr:
+				if calleeIs(f, x, "(*"+c20sv+".Spec).Equals") && len(x.Args) == 1 && prevVar != nil {
+					if sel, ok := ast.Unparen(x.Fun).(*ast.SelectorExpr); ok {
+						a, b := mp(c20DerivRoot(f, sel.X)), mp(c20DerivRoot(f, x.Args[0]))
+						if (a == prevVar && b == entVar) || (a == entVar && b == prevVar) {
+							eqKeys = append(eqKeys, f.CallKey(x))
+						}
+					}
+				}
+			case *ast.BinaryExpr:
+				if (x.Op == token.EQL || x.Op == token.NEQ) && prevVar != nil {
+					a, b := mp(c20KindOf(f, x.X, 0)), mp(c20KindOf(f, x.Y, 0))
+					if (a == prevVar && b == entVar) || (a == entVar && b == prevVar) {
+						// the key is the positive fact "kinds are equal" whatever the operator
+						k, _ := f.Atom(x)
+						kindAtoms = append(kindAtoms, c20Atom{k, false})
+					}
+				}
+			}
+			return true
+		})
+	}
+	collect(cfgLoop.Body, func(v *types.Var) *types.Var { return v })
+	// predicates: a same-package function called in the loop with the predecessor and the new entity
+	// (kindChanged(prev, entity), unchanged(prev, entity)) is read with its parameters standing for
+	// the arguments and interpreted in place by the engine (facts in the parameters' vocabulary)
+	predicates := map[*types.Func]bool{}
+	closures := false // a predicate closure must be interpreted in place
+	unreadable := 0   // calls taking both entities that the rule cannot read as a comparison
 	c20SkipLits(cfgLoop.Body, func(n ast.Node) bool {
-		switch x := n.(type) {
-		case *ast.CallExpr:
-			if calleeIs(f, x, "(*"+c20sv+".Spec).Equals") && len(x.Args) == 1 && prevVar != nil {
-				sel := ast.Unparen(x.Fun).(*ast.SelectorExpr)
-				a, b := c20RootOrigin(f, sel.X), c20RootOrigin(f, x.Args[0])
-				if (a == prevVar && b == entVar) || (a == entVar && b == prevVar) {
-					eqKeys = append(eqKeys, f.CallKey(x))
+		call, ok := n.(*ast.CallExpr)
+		if !ok || prevVar == nil {
+			return true
+		}
+		// does the call take both the predecessor and the new entity?
+		both := map[*types.Var]bool{}
+		for _, a := range call.Args {
+			both[c20DerivRoot(f, a)] = true
+		}
+		if sel, ok := ast.Unparen(call.Fun).(*ast.SelectorExpr); ok {
+			both[c20DerivRoot(f, sel.X)] = true
+		}
+		if !both[prevVar] || !both[entVar] || calleeIs(f, call, "(*"+c20sv+".Spec).Equals") {
+			return true
+		}
+		// a closure held in a single-assignment local
+		if lit, ok := f.FuncValue(call.Fun).(*ast.FuncLit); ok && lit.Type.Params != nil {
+			bind := map[*types.Var]*types.Var{}
+			j := 0
+			for _, fld := range lit.Type.Params.List {
+				for _, id := range fld.Names {
+					if j < len(call.Args) {
+						if r := c20DerivRoot(f, call.Args[j]); r == prevVar || r == entVar {
+							if pv, ok := f.Info.Defs[id].(*types.Var); ok {
+								bind[pv] = r
+							}
+						}
+					}
+					j++
 				}
 			}
-		case *ast.BinaryExpr:
-			if (x.Op == token.EQL || x.Op == token.NEQ) && prevVar != nil {
-				a, b := c20KindOf(f, x.X, 0), c20KindOf(f, x.Y, 0)
-				if (a == prevVar && b == entVar) || (a == entVar && b == prevVar) {
-					// the key is the positive fact "kinds are equal" whatever the operator
-					k, _ := f.Atom(x)
-					kindAtoms = append(kindAtoms, c20Atom{k, false})
+			before := len(eqKeys) + len(kindAtoms)
+			collect(lit.Body, func(v *types.Var) *types.Var { return bind[v] })
+			if len(eqKeys)+len(kindAtoms) > before {
+				closures = true
+			} else {
+				unreadable++
+			}
+			return true
+		}
+		fo, ok := f.Callee(call).(*types.Func)
+		if !ok || fo.Pkg() != f.Pkg.Types {
+			unreadable++
+			return true
+		}
+		gfd := declOf(f.Pkg, fo)
+		if gfd == nil {
+			unreadable++
+			return true
+		}
+		g := flow.NewFunc(f.Pkg, gfd)
+		bind := map[*types.Var]*types.Var{}
+		for i, a := range call.Args {
+			r := c20DerivRoot(f, a)
+			if r != prevVar && r != entVar {
+				continue
+			}
+			j := 0
+			if gfd.Type.Params != nil {
+				for _, fld := range gfd.Type.Params.List {
+					for _, id := range fld.Names {
+						if j == i {
+							if pv, ok := g.Info.Defs[id].(*types.Var); ok {
+								bind[pv] = r
+							}
+						}
+						j++
+					}
 				}
 			}
+		}
+		if sel, ok := ast.Unparen(call.Fun).(*ast.SelectorExpr); ok && gfd.Recv != nil && len(gfd.Recv.List) == 1 && len(gfd.Recv.List[0].Names) == 1 {
+			if r := c20DerivRoot(f, sel.X); r == prevVar || r == entVar {
+				if pv, ok := g.Info.Defs[gfd.Recv.List[0].Names[0]].(*types.Var); ok {
+					bind[pv] = r
+				}
+			}
+		}
+		if len(bind) < 2 {
+			return true
+		}
+		before := len(eqKeys) + len(kindAtoms)
+		collect(gfd.Body, func(v *types.Var) *types.Var { return bind[v] })
+		if len(eqKeys)+len(kindAtoms) > before {
+			predicates[fo] = true
+		} else {
+			unreadable++
 		}
 		return true
 	})
@@ -441,6 +576,8 @@ func c20Diff(c *core.Ctx) {
 	}
 
 	res := analyze(c, f, flow.Config{
+		Inline:         inlineIf(f, func(callee *types.Func, g *flow.Func) bool { return predicates[callee] }),
+		InlineClosures: closures,
 		OnBlock: func(st *flow.State, b *cfg.Block) {
 			switch b.Stmt {
 			case ast.Stmt(delLoop):
@@ -503,7 +640,7 @@ func c20Diff(c *core.Ctx) {
 				if c20FieldOf(f, s[0]) == entF && inCfg {
 					st.Set(evEnt, flow.True)
 				}
-				switch roleOfVar(c20Var(f, s[0])) {
+				switch roleOfVar(c20Bucket(f, s[0])) {
 				case "deleted":
 					if inDel {
 						st.Set(evDel, flow.True)
@@ -555,7 +692,7 @@ func c20Diff(c *core.Ctx) {
 		case *ast.AssignStmt:
 			inDel, inCfg := contains(delLoop.Body, x), contains(cfgLoop.Body, x)
 			for _, s := range c20IndexStores(x) {
-				role := roleOfVar(c20Var(f, s[0]))
+				role := roleOfVar(c20Bucket(f, s[0]))
 				isEnt := c20FieldOf(f, s[0]) == entF
 				switch {
 				case role == "" && !isEnt:
@@ -598,8 +735,21 @@ func c20Diff(c *core.Ctx) {
 		sprintf("%d abstract iteration ends: absent ⇒ filed under deleted and removed from entities; present ⇒ untouched", fDel.n))
 	fBuild.report(c, "R-C20-2", cons+"|failed spec leaves entry untouched", cfgLoop,
 		sprintf("%d abstract iteration ends: every map write happens with err == nil established", fBuild.n))
-	fSame.report(c, "R-C20-2", cons+"|unchanged spec is skipped", cfgLoop,
-		sprintf("%d abstract iteration ends: with a predecessor, every map write happens after Equals(previous, new) returned false (%d guard call(s))", fSame.n, len(eqKeys)))
+	if fSame.why != "" && len(eqKeys) == 0 && unreadable > 0 {
+		c.Undecide("R-C20-2", cons+"|unchanged spec is skipped", pos(c, cfgLoop), "the predecessor and the new entity are compared by a function the rule cannot read (no Spec.Equals between them found)")
+		fSame.why = ""
+	} else {
+		fSame.report(c, "R-C20-2", cons+"|unchanged spec is skipped", cfgLoop,
+			sprintf("%d abstract iteration ends: with a predecessor, every map write happens after Equals(previous, new) returned false (%d guard call(s))", fSame.n, len(eqKeys)))
+	}
+	// a comparison of the two entities hidden in a function the rule cannot read leaves the table blind
+	blind := unreadable > 0 && (len(eqKeys) == 0 || len(kindAtoms) == 0)
+	for _, fd := range []*c20Finding{&fClass, &fDrop} {
+		if blind && fd.why != "" {
+			c.Undecide("R-C20-2", cons+"|classification (comparison in an unreadable function)", pos(c, cfgLoop), "the predecessor and the new entity are compared by a function the rule cannot read; the decision table cannot be completed")
+			fd.why = ""
+		}
+	}
 	fClass.report(c, "R-C20-2", cons+"|updated iff predecessor, created otherwise", cfgLoop,
 		sprintf("%d abstract iteration ends: updated ⇒ predecessor; created ⇒ no predecessor or kind change with predecessor deleted", fClass.n))
 	fReg.report(c, "R-C20-2", cons+"|classified entity is registered", cfgLoop,
@@ -611,6 +761,8 @@ func c20Diff(c *core.Ctx) {
 	if fKind.n == 0 && fKind.why == "" {
 		// no path files anything under "updated": then no object is ever inherited — that is R-C20-2's business
 		c.Discharge("R-C20-3", cons+"|updated only for equal kinds", pos(c, cfgLoop), "no path files a name under 'updated'")
+	} else if fKind.why != "" && len(kindAtoms) == 0 && unreadable > 0 {
+		c.Undecide("R-C20-3", cons+"|updated only for equal kinds", pos(c, cfgLoop), "the predecessor and the new entity are compared by a function the rule cannot read (no comparison of their kinds found)")
 	} else {
 		fKind.report(c, "R-C20-3", cons+"|updated only for equal kinds", cfgLoop,
 			sprintf("%d abstract iteration ends file a name under 'updated', all with previous kind == new kind established (%d comparison(s))", fKind.n, len(kindAtoms)))
@@ -785,4 +937,13 @@ func c20ParamIndex(g *flow.Func, fd *ast.FuncDecl, v *types.Var) int {
 		}
 	}
 	return -1
+}
+
+// c20Bucket is the identity of a classification map: a local variable, or the field of a struct
+// that carries the maps between the diff and the notification.
+func c20Bucket(f *flow.Func, e ast.Expr) *types.Var {
+	if v := c20Var(f, e); v != nil {
+		return v
+	}
+	return c20FieldOf(f, e)
 }
